@@ -19,6 +19,7 @@ import (
 func init() {
 	vRegister("HarnessC09Gate", HarnessC09Gate)
 	vRegister("HarnessC09Bearer", HarnessC09Bearer)
+	vRegister("HarnessC09Jwt", HarnessC09Jwt)
 }
 
 // c09Validator stands for the JWT check: an arbitrary verdict.
@@ -122,4 +123,41 @@ func HarnessC09Bearer() {
 	ok, id := k.Valid(req)
 	vAssert(!ok && id == "", "an Authorization value that is not 'Bearer <token>' is never valid")
 	vCover("c09 bearer: malformed refused")
+}
+
+// HarnessC09Jwt: the real Key.Valid / ValidToken / keyFunc against the JWT
+// library reduced to its documented contract (engine) resp. the real library
+// (natively): a bearer token is accepted exactly when it is an HS256 token
+// signed with the instance key, not expired and carrying the user id; tokens
+// of another algorithm (HS384, HS512, none), signed with another key, expired
+// or without user id are refused, and the gate answers 401.
+func HarnessC09Jwt() {
+	key := []byte("0123456789abcdefghij")
+	k, _ := NewKey(key)
+	alg := vChoose(4)
+	keyOK, expired, jti := vChoose(2) == 1, vChoose(2) == 1, vChoose(2) == 1
+	tok := vJWT(alg, keyOK, expired, jti, key)
+	want := alg == 0 && keyOK && !expired && jti
+
+	ok, id := k.ValidToken(tok)
+	vAssert(ok == want, "a bearer token is valid exactly when it is HS256, signed with the instance key, unexpired and carries the user id")
+	if ok {
+		vAssert(id == "u1", "the user id of a valid token is reported")
+	}
+
+	// through the gate
+	nc := vConn()
+	h := NewV1Handler(ServerArgs{JwtAuth: k, AuthToken: "tk", Nc: nc})
+	req := &http.Request{Method: "PUT", URL: &url.URL{Path: "/nodes/n1/zz"}, Header: http.Header{}}
+	req.Body = &c09Body{}
+	req.Header.Set("Authorization", "Bearer "+tok)
+	rec := &c09Rec{}
+	h.ServeHTTP(rec, req)
+	if want {
+		vCover("c09 jwt: accepted")
+		vAssert(rec.code != http.StatusUnauthorized, "a request with a valid bearer token passes the gate")
+	} else {
+		vCover("c09 jwt: refused")
+		vAssert(rec.code == http.StatusUnauthorized && len(vEvents(nc)) == 0, "a request with an invalid bearer token gets 401 and causes no bus traffic")
+	}
 }
